@@ -233,7 +233,15 @@ class Constraint:
 
 # --------------------------------------------------------------------- constant metrics
 def const_metric(kind: str, dim: int, rng):
-    """Returns (argument for a mici system / mici matrix, dense array)."""
+    """Returns (argument for a mici system / mici matrix, dense array); well conditioned (cond <= 1e3) by resampling."""
+    for _ in range(200):
+        arg, dense = _const_metric(kind, dim, rng)
+        if np.linalg.cond(dense) <= 1e3:
+            return arg, dense
+    return _const_metric("diag", dim, rng)
+
+
+def _const_metric(kind: str, dim: int, rng):
     from mici import matrices as mm
 
     if kind == "none":
@@ -447,7 +455,7 @@ class Model:
                 except (FloatingPointError, np.linalg.LinAlgError):
                     continue
                 j = cn.jac(q)
-                if np.linalg.cond(j @ minv @ j.T) < 1e6:
+                if np.linalg.cond(j @ minv @ j.T) < 1e4:
                     break
             else:
                 q = cn.q0.copy()
